@@ -137,6 +137,17 @@ func (dsp *DataStreamProcessor) ConfigureTrigger(state TriggerState) error {
 
 func (dsp *DataStreamProcessor) processSegment(segment *DataSegment) {
 	dsp.DecimateData(segment)
+	if dsp.EdgeMulti && len(dsp.stream.rawData) > 0 {
+		// After lost data the source numbers this segment later than the samples we hold would suggest, and
+		// AppendSegment renumbers the retained samples to match. Edges the edge-multi search found before the
+		// gap carry frame numbers of the old numbering: turning one into a record would cut before the start
+		// of the data. Forget them and go on searching at the first new sample.
+		expected := dsp.stream.firstFrameIndex + FrameIndex(len(dsp.stream.rawData)*dsp.stream.framesPerSample)
+		if segment.firstFrameIndex != expected {
+			dsp.EMTState.reset()
+			dsp.EMTState.nextFrameIndexToInspect = segment.firstFrameIndex
+		}
+	}
 	dsp.stream.AppendSegment(segment)
 	primaryRecords := dsp.TriggerData()
 	dsp.AnalyzeData(primaryRecords)                                       // add analysis results to records in-place
